@@ -33,6 +33,12 @@ admissible for its category; `id(` references, `global` statements and cache dec
 disposition at all, an unsorted set iteration only as a listed finding. -/
 theorem audited_admissible : ∀ a ∈ C09.audited, admissible a.entry.cat a.disp = true := by decide +kernel
 
+/-- **no_listed_findings** (finite, kernel `decide`): no audited entry is a `listedFinding`, i.e. every hidden-state /
+nondeterminism source the census finds in the current source is accounted for by the model or by a reasoned
+disposition.  (Until /repo commit 05234cd the unsorted set iteration in `Context.dtype_index.find_dtype_index` was
+listed here as a finding.) -/
+theorem no_listed_findings : ∀ a ∈ C09.audited, a.disp ≠ .listedFinding := by decide +kernel
+
 /-- **seed_irrelevant**: two ambients with the same `_tmp` counter — whatever their seed permutations,
 registries, warn caches, other contexts' counters — drive every request from every context state to
 the same state and the same outputs (all of them, unprinted names included).  Hash-keyed containers
